@@ -31,7 +31,7 @@ func runTSS(c tssCase, obs tssObs, nt func(w *tssWorld) bool) *pbt.Verdict {
 
 // C05: nonce pairs used at most once.
 func TestC05(t *testing.T) {
-	prof := tssProfile{wDes: 14, wReset: 5, wReq: 22, wSig: 8, wSigAll: 14, wEnd: 26, wAct: 5, wOracle: 6}
+	prof := tssProfile{wDes: 14, wReset: 5, wReq: 22, wSig: 8, wSigAll: 14, wEnd: 26, wAct: 5, wOracle: 6, gov: true}
 	pbt.Check(t, "C05", func(rt *rapid.T) tssCase { return genTSSCase(rt, prof) }, func(c tssCase) *pbt.Verdict {
 		return runTSS(c, tssObs{c05: true}, func(w *tssWorld) bool { return w.retryAfterTO && w.failedCreate && w.resetPending })
 	})
@@ -57,7 +57,7 @@ func TestC10(t *testing.T) {
 
 // C13 (signing fees): exact escrow and payout.
 func TestC13Signing(t *testing.T) {
-	prof := tssProfile{wDes: 12, wReset: 1, wReq: 26, wSig: 6, wSigAll: 22, wEnd: 26, wAct: 4, wOracle: 3}
+	prof := tssProfile{wDes: 12, wReset: 1, wReq: 26, wSig: 6, wSigAll: 22, wEnd: 26, wAct: 4, wOracle: 3, gov: true}
 	pbt.Check(t, "C13", func(rt *rapid.T) tssCase { return genTSSCase(rt, prof) }, func(c tssCase) *pbt.Verdict {
 		return runTSS(c, tssObs{c13: true}, func(w *tssWorld) bool { return w.boundaryReq || w.payoutRetry })
 	})
